@@ -49,6 +49,9 @@ static void verror_at(char *filename, char *input, int line_no,
   fprintf(stderr, "\n");
 }
 
+// The token for which made-up text is being tokenized, if any
+Token *made_by;
+
 void error_at(char *loc, char *fmt, ...) {
   // `loc` points into the text of some input file: usually the one
   // being tokenized, but a string literal is re-read (and may be found
@@ -67,6 +70,17 @@ void error_at(char *loc, char *fmt, ...) {
 
   va_list ap;
   va_start(ap, fmt);
+
+  // Text that the preprocessor made up has no position of its own:
+  // the error is reported where the text was made.
+  Token *tok = made_by;
+  if (tok && !strcmp(file->name, "<built-in>")) {
+    while (tok->origin && !strcmp(tok->file->name, "<built-in>"))
+      tok = tok->origin;
+    verror_at(tok->file->name, tok->file->contents, tok->line_no, tok->loc, fmt, ap);
+    exit(1);
+  }
+
   verror_at(file->name, file->contents, line_no, loc, fmt, ap);
   exit(1);
 }
